@@ -84,7 +84,8 @@ class Prop(BaseProp):
         for _ in range(nr.randint(1, 4)):
             op = nr.choice(("validate", "repr", "represent", "declare", "eq", "substitute", "validate_bad",
                             "new_random", "from_native", "iterate", "new_generator", "combine", "make_required",
-                            "validate_or_fail", "fake_fixed", "getstate_free"))
+                            "validate_or_fail", "fake_fixed", "getstate_free", "validate_many_errors",
+                            "substitute_any_multi", "repr_long", "eq_other_type", "from_native_odd", "make_required_set"))
             s = nr.choice(live)
             self.probes["noise:" + op] += 1
             try:
@@ -135,6 +136,38 @@ class Prop(BaseProp):
                     # generation from fully fixed schemas consumes no draw, so it is "non-generating" for the stream
                     self.fake(self.schema.dict({"a": self.schema.int(1), "b": self.schema.list([self.schema.str("x")])}))
                     self.fake(self.schema.none)
+                elif op == "validate_many_errors":
+                    big = self.schema.dict({("k%d" % i): self.schema.int.min(0) for i in range(12)})
+                    self.validate(big, {("k%d" % i): "bad" for i in range(12)}).get_errors()
+                    self.validate(self.schema.list(self.schema.str.len(1)), [1, 2, 3, None, [], {}, 1.5, "xx"] * 4).get_errors()
+                elif op == "substitute_any_multi":
+                    a = self.schema.any(self.schema.dict({"a": self.schema.int, ...: ...}), self.schema.dict({"a": self.schema.int}),
+                                        self.schema.dict, self.schema.any, self.schema.str)
+                    a % {"a": 1}
+                    try:
+                        a % {"a": "x", "b": 2}
+                    except Exception:
+                        pass
+                elif op == "repr_long":
+                    repr(self.schema.list([self.schema.int(i) for i in range(60)]))
+                    self.represent(self.schema.any(*[self.schema.str(str(i)) for i in range(40)]))
+                elif op == "eq_other_type":
+                    self.schema.int == self.schema.str
+                    self.schema.list(self.schema.int) == self.schema.dict
+                    s == self.schema.any(s)
+                elif op == "from_native_odd":
+                    from d42.utils import from_native
+                    for odd in ({1, 2}, (1, 2), frozenset("ab"), object()):
+                        try:
+                            from_native(odd)
+                        except Exception:
+                            pass
+                elif op == "make_required_set":
+                    from d42.utils import make_required
+                    from d42 import optional
+                    d0 = self.schema.dict({optional("a"): self.schema.int, optional("b"): self.schema.str, optional("c"): self.schema.none})
+                    make_required(d0, {"a", "b", "c"})
+                    make_required(d0)
                 elif op == "getstate_free":
                     import re
                     re.compile(r"[a-c]+\d{2}")
